@@ -114,8 +114,10 @@ fn build_doc(s: &Sch, id: u64, d: &Value) -> TantivyDocument {
         doc.add_bool(f("b"), &v[2..] == "true");
     }
     for v in strs("d") {
-        // seconds + a sub-second part that indexing truncates
-        doc.add_date(f("d"), DateTime::from_timestamp_nanos(v[2..].parse::<i64>().unwrap() * 1_000_000_000 + 123_456_789 * ((id % 2) as i64)));
+        // seconds + (for dates from 1970 on) a sub-second part that indexing truncates
+        let secs = v[2..].parse::<i64>().unwrap();
+        let sub = if secs >= 0 { 123_456_789 * ((id % 2) as i64) } else { 0 };
+        doc.add_date(f("d"), DateTime::from_timestamp_nanos(secs * 1_000_000_000 + sub));
     }
     for v in strs("y") {
         doc.add_bytes(f("y"), &unhex(&v[2..]));
